@@ -137,11 +137,14 @@ fn enumerate(_tier: Tier, idx: u32, of: u32, cx: &mut Cx) -> CaseResult {
     for (name, (opts, tree)) in [
         ("many-hunks", crate::probes::many_hunks_tree(10_012)),
         ("big-blocks", crate::probes::big_blocks_tree()),
+        ("huge-blocks", crate::probes::huge_block_tree()),
+        ("huge-file", crate::probes::huge_file_tree()),
     ] {
         crate::engine::heartbeat();
+        let t0 = std::time::Instant::now();
         let sub = cx.dir(name);
         std::fs::create_dir_all(&sub).unwrap();
-        let mut cx2 = crate::engine::sub_cx(cx, sub);
+        let mut cx2 = crate::engine::sub_cx(cx, sub.clone());
         run(&Case { opts, tree }, &mut cx2).map_err(|mut f| {
             f.signature = format!("{}/probe-{name}", f.signature);
             f.inner = serde_json::json!({"probe": name});
@@ -150,6 +153,10 @@ fn enumerate(_tier: Tier, idx: u32, of: u32, cx: &mut Cx) -> CaseResult {
         cx.add_evals(1);
         cx.inner_nontrivial += 1;
         cx.labels.extend(cx2.labels.iter().map(|l| format!("probe:{l}")));
+        crate::engine::force_remove(&sub);
+        if std::env::var("VERIF_TIMING").is_ok() {
+            eprintln!("C01 probe {name}: {:?}", t0.elapsed());
+        }
     }
     Ok(())
 }
@@ -158,7 +165,7 @@ pub fn prop() -> Prop<Case> {
     Prop {
         id: "C01",
         level: "exploration",
-        rule: "case = (options triple, generated tree <=40 nodes; 0.5% of cases are 'wide' trees of 110-320 files in 1-3 directories with mostly one block per file, and in the thorough tier occasionally > 10 000 files with one entry per hunk); non-trivial iff the tree has a non-empty file and >=2 of {combined block with >=2 files, file spanning >=2 blocks, file at exact block multiple, setuid/setgid/sticky bit, pre-1970 or sub-second mtime, non-ASCII name, symlink, non-root owner, >=2 index hunks} as measured from the independently decoded archive; distinct = distinct case JSON hash; plus two fixed scale probes per run (10 012 files with one entry per index hunk, i.e. a second index sub-directory; files stored as single blocks of 1 MiB+7, 5.5 MiB (twice) and 6 MiB with default options)",
+        rule: "case = (options triple, generated tree <=40 nodes; 0.5% of cases are 'wide' trees of 110-320 files in 1-3 directories with mostly one block per file, and in the thorough tier occasionally > 10 000 files with one entry per hunk); non-trivial iff the tree has a non-empty file and >=2 of {combined block with >=2 files, file spanning >=2 blocks, file at exact block multiple, setuid/setgid/sticky bit, pre-1970 or sub-second mtime, non-ASCII name, symlink, non-root owner, >=2 index hunks} as measured from the independently decoded archive; distinct = distinct case JSON hash; plus four fixed scale probes per run (10 012 files with one entry per index hunk, i.e. a second index sub-directory; files stored as single blocks of 1 MiB+7, 5.5 MiB (twice) and 6 MiB with default options; single blocks of 40 MiB and 33 MiB+1 written with a 64 MiB block size; one 272 MiB file between small ones)",
         assumptions: &[
             "runs as root on tmpfs; owners drawn from ids with names in /etc/passwd and /etc/group",
             "snapshot oracle uses lstat/readlink/read only (no conserve code)",
